@@ -170,7 +170,8 @@ where
             let results = Arc::clone(&results);
             let mut it = make_iter(t, n);
             let total = &total;
-            s.spawn(move || {
+            // same stack budget as the shell's main thread has
+            let _ = std::thread::Builder::new().stack_size(64 << 20).spawn_scoped(s, move || {
                 let mut acc = Acc {
                     calls: 0,
                     lines: 0,
@@ -180,6 +181,7 @@ where
                     samples: vec![],
                 };
                 run_lines(&shell, t, &watch, &mut *it, &mut acc);
+                watch.finish(t);
                 total.fetch_add(acc.calls, Ordering::SeqCst);
                 results.lock().expect("lock").push(acc);
             });
